@@ -307,8 +307,8 @@ impl ClientConnection {
     pub closed spec fn prior_handed_off(&self) -> bool {
         self.sink.last_issued() is Some ==> handed_off(self.sink.last_issued()->Some_0)
     }
-    /// A-PEER: getpeername succeeded when the connection was accepted (environment, not client bytes)
-    pub closed spec fn peer_known(&self) -> bool { self.remote_addr is Ok }
+    // (no assumption on remote_addr: getpeername FAILS for a connection that was reset while it sat in the accept queue,
+    //  and the bytes received before the reset are still readable -- replay c15_reset_before_accept)
     pub closed spec fn closing(&self) -> bool { self.no_more_requests }
     /// frame: everything but the header source is unchanged
     pub closed spec fn same_but_head(&self, o: &ClientConnection) -> bool {
@@ -365,11 +365,10 @@ pub open spec fn ascii_bytes(s: Seq<u8>) -> bool { forall|i: int| 0 <= i < s.len
             }
 //@endfn
 
-//@fn read ret res props C01,C10,C15,C16
+//@fn read ret res props C01,C10,C14,C15,C16
 //@spec
-    requires old(self).prior_handed_off(), old(self).peer_known(),
+    requires old(self).prior_handed_off(),
     ensures
-        final(self).peer_known(),
         final(self).closing() == old(self).closing(),
         match res {
             // exactly one writer is taken for a request that is delivered, and it is the request's own
@@ -384,7 +383,7 @@ pub open spec fn ascii_bytes(s: Seq<u8>) -> bool { forall|i: int| 0 <= i < s.len
                 let ghost mut nlines: int = 0;
 //@loop 1
                     invariant
-                        self.prior_handed_off(), self.peer_known(),
+                        self.prior_handed_off(),
                         self.closing() == old(self).closing(), self.sink_last() == old(self).sink_last(),
                         // O-NOSKIP (C10, C16): every non-empty line of the head has become exactly one header (or ended the
                         // request with an error): no line is skipped, none is entered twice
@@ -411,9 +410,9 @@ pub open spec fn ascii_bytes(s: Seq<u8>) -> bool { forall|i: int| 0 <= i < s.len
 //@endimpl
 
 //@impl src/client.rs "Iterator for ClientConnection" inherent
-//@fn next ret res props C10,C12,C01,C15
+//@fn next ret res props C10,C12,C01,C14,C15
 //@spec
-    requires old(self).prior_handed_off(), old(self).peer_known(),    // A-APP (everything issued earlier went to the application), A-PEER
+    requires old(self).prior_handed_off(),    // A-APP (everything issued earlier went to the application)
     ensures
         // C12: after a request that ended the connection nothing more is read or interpreted
         old(self).closing() ==> res is None && *final(self) == *old(self),
@@ -427,7 +426,7 @@ pub open spec fn ascii_bytes(s: Seq<u8>) -> bool { forall|i: int| 0 <= i < s.len
 //@entry
         broadcast use axiom_chan_of_seq_writer, axiom_chan_of_box, axiom_wchan_preserved_mut, axiom_find_post, axiom_contains_str, lemma_as_ref_index, lemma_as_ref_index_fwd;
 //@loop 1
-            invariant self.prior_handed_off(), self.peer_known(), !self.closing(), !old(self).closing(),
+            invariant self.prior_handed_off(), !self.closing(), !old(self).closing(),
 //@loopentry 1
             broadcast use axiom_chan_of_seq_writer, axiom_chan_of_box, axiom_wchan_preserved_mut, axiom_find_post, axiom_contains_str, lemma_as_ref_index, lemma_as_ref_index_fwd;
 //@before? 1 return None @after Err(ReadError::WrongRequestLine)
